@@ -82,6 +82,14 @@ def gen_case(rng, shape_name, with_override, with_sugar, with_alias):
                         mult = rng.choice(["+", "*", "?"]) if (with_sugar and rng.random() < 0.3) else ""
                         alt.append({"kind": "ref", "parts": list(mods) + [name], "mult": mult})
                 alts.append(alt)
+            if with_sugar and rng.random() < 0.3:
+                # named matches (the rule's default action builds an object): also in IMPORTED files (finding D31)
+                k = 0
+                for alt in alts:
+                    for it in alt:
+                        if rng.random() < 0.6:
+                            k += 1
+                            it["name"] = "m%d" % k
             rules.append({"name": [n], "alts": alts})
         files[i] = {"imports": [{"alias": aliases[i][j], "target": FNAMES[j]} for j in shape[i]], "rules": rules, "terms": terms}
     if with_override:
@@ -114,7 +122,8 @@ def file_text(f, me="root", dirs=None):
             out += "@%s\n" % r["action"]
         alts = []
         for alt in r["alts"]:
-            alts.append(" ".join(('"%s"' % it["text"]) if it["kind"] == "str" else ".".join(it["parts"]) + it["mult"] for it in alt) or "EMPTY")
+            alts.append(" ".join((it["name"] + "=" if it.get("name") else "") + (('"%s"' % it["text"]) if it["kind"] == "str" else ".".join(it["parts"]) + it["mult"])
+                                 for it in alt) or "EMPTY")
         out += "%s: %s;\n" % (".".join(r["name"]), " | ".join(alts))
     if f["terms"]:
         out += "terminals\n" + "".join('%s: "%s";\n' % (t["name"], t["text"]) for t in f["terms"])
@@ -164,8 +173,10 @@ def worker(job):
                 if one in helpers:
                     helpers[name] = {"base": helpers[one]["base"], "mult": "*"}
         case["helpers"] = helpers
-        case["akind"] = {nt.fqn: (job.get("actions", {}).get(nt.fqn) or helper_kind(nt.fqn) or "none") for nt in g.nonterminals.values()}
-        case["assign"] = [[] for _ in g.productions]
+        # named matches: positions projected from the loaded productions (trusted); a rule with named matches builds an object by default
+        case["assign"] = [sorted([{"name": a.name, "op": a.op, "idx": a.index + 1} for a in (p.assignments or {}).values()], key=lambda x: x["name"]) for p in g.productions]
+        has_assign = {p.symbol.fqn for p in g.productions if p.assignments}
+        case["akind"] = {nt.fqn: (job.get("actions", {}).get(nt.fqn) or helper_kind(nt.fqn) or ("obj" if nt.fqn in has_assign else "none")) for nt in g.nonterminals.values()}
         texts = sorted({t[1] for t in case["terms"]})
         rng = random.Random(job["seed"])
         words = [list(w) for n in range(1, 3) for w in itertools.product(texts, repeat=n)]
